@@ -261,10 +261,10 @@ func runC20(c *an.Ctx) {
 		})
 		c.Floor("R4", "coordinate cache writes in the ping delegate", len(ws), 2)
 		accepted := an.EdgesWhere(np, func(f an.Cmp) bool {
-			return strings.HasPrefix(f.L, "(*Client).Update($0.serf.coordClient,$1.Name,&local:coord,$2)#1") && f.Op == "==" && f.R == "c:nil"
+			return strings.HasPrefix(f.L, "(*Client).Update($0.serf.coordClient,$1.Name,&local:Coordinate,$2)#1") && f.Op == "==" && f.R == "c:nil"
 		})
 		decoded := an.EdgesWhere(np, func(f an.Cmp) bool {
-			return strings.HasPrefix(f.L, "codec.(*Decoder).Decode(") && strings.HasSuffix(f.L, ",&local:coord)") && f.Op == "==" && f.R == "c:nil"
+			return strings.HasPrefix(f.L, "codec.(*Decoder).Decode(") && strings.HasSuffix(f.L, ",&local:Coordinate)") && f.Op == "==" && f.R == "c:nil"
 		})
 		ver := an.EdgesImplying(np, an.Cmp{L: "$3[c:0]", Op: "==", R: cv(c, serf, "PingVersion")})
 		for _, w := range ws {
@@ -405,7 +405,7 @@ func runC21(c *an.Ctx) {
 		ok := false
 		for _, r := range an.Returns(mg) {
 			p := an.Path(an.ResultValues(r)[0])
-			if strings.HasPrefix(p, "math.Sqrt(phi:sum@") {
+			if strings.HasPrefix(p, "math.Sqrt(phi@") {
 				if call, isC := an.ResultValues(r)[0].(*ssa.Call); isC {
 					if phi, isPhi := call.Call.Args[0].(*ssa.Phi); isPhi {
 						ok = true
